@@ -164,7 +164,26 @@ def show(adj):
     return {str(v): sorted(map(str, adj[v])) for v in adj}
 
 
-def run_case(tier, seed, index, spec=None):
+def primer(adj):
+    """a different graph with the same vertex names and the same number of edges, as dense as possible
+    (clique first): run just before adj, it exposes any state that an implementation keeps between calls
+    under a cheap fingerprint (vertex set, edge count, degree sum) -- a result must depend on the graph only"""
+    vs = list(adj)
+    n = len(vs)
+    m = sum(len(adj[v]) for v in adj) // 2
+    out = {v: set() for v in vs}
+    k = max([k for k in range(n + 1) if k * (k - 1) // 2 + (n - k if k else 0) <= m] or [0])
+    # a clique on the first k vertices, every other vertex pendant on it (an isolated vertex would end
+    # minor-min-width style bounds at once), the remaining edges in lexicographic order
+    want = [(a, b) for a, b in itertools.combinations(range(k), 2)] + [(0, r) for r in range(k, n) if k]
+    want += [ab for ab in sorted(itertools.combinations(range(n), 2), key=lambda ab: (ab[1], ab[0])) if ab not in set(want)]
+    for a, b in want[:m]:
+        out[vs[a]].add(vs[b])
+        out[vs[b]].add(vs[a])
+    return out
+
+
+def run_case(tier, seed, index, spec=None, history=None):
     env.setup()
     F = env.mod('fggs.factorize')
     viols, keys, counters = [], [], {}
@@ -174,6 +193,8 @@ def run_case(tier, seed, index, spec=None):
     nfam = 60 if tier == 'quick' else 6000
     if spec is not None:
         adj = {k: set(v) for k, v in spec.items()}
+        for h in (history or []):
+            judge(F, {k: set(v) for k, v in h.items()}, [], dict(replay=True, history=True), counters)
         judge(F, adj, viols, dict(replay=True), counters)
         return dict(cls='replay', verdict='violated' if viols else 'held', violations=viols, key='replay')
     if index < EX_CHUNKS:
@@ -228,9 +249,22 @@ def run_case(tier, seed, index, spec=None):
         for j, gspec in enumerate(gs):
             if j % ncase != k:
                 continue
-            if tier == 'quick' and evals >= 7:
+            if tier == 'quick' and len(keys) >= 14:
                 break
             adj = {int(v): set(ns) for v, ns in gspec['adj'].items()}
+            # history: a dense graph on the same vertex names with the same edge count first, then this one (before any other call on it in this process)
+            # (vertex names private to this pair, so that nothing run earlier in this process shares them)
+            hadj = {(v, f'h{j}'): {(u, f'h{j}') for u in adj[v]} for v in adj}
+            pr = primer(hadj)
+            judge(F, pr, viols, dict(corpus=j, primer=True), counters)
+            nv = len(viols)
+            judge(F, hadj, viols, dict(corpus=j, after_primer=True), counters)
+            for v in viols[nv:]:
+                v['sig'] += ':after-same-fingerprint-graph'
+                v['history'] = [show(pr)]
+            counters['history_pairs'] = counters.get('history_pairs', 0) + 1
+            evals += 2
+            keys.append(f'K{j}h')
             judge(F, adj, viols, dict(corpus=j), counters)                      # canonical order: as found
             evals += 1
             keys.append(f'K{j}')
@@ -258,7 +292,7 @@ def run_case(tier, seed, index, spec=None):
 
 def replay(rep):
     if rep.get('graph'):
-        return run_case(rep['tier'], rep['seed'], rep['index'], spec=rep['graph'])
+        return run_case(rep['tier'], rep['seed'], rep['index'], spec=rep['graph'], history=rep.get('history'))
     return run_case(rep['tier'], rep['seed'], rep['index'])
 
 
@@ -266,6 +300,8 @@ def finalize(tot, tier, seed):
     inc = []
     if tot['obs'].get('graphs_where_min_fill_is_suboptimal', 0) == 0:
         inc.append('no graph on which min_fill is suboptimal was run: quickbb search never had to improve its incumbent')
+    if tot['obs'].get('history_pairs', 0) == 0:
+        inc.append('no (dense same-fingerprint graph, then min_fill-suboptimal graph) call sequence was run')
     for c in ('exhaustive<=5', 'random', 'families', 'minfill-suboptimal-corpus'):
         if tot['classes'].get(c, 0) == 0:
             inc.append(f'class {c} not run')
